@@ -816,7 +816,10 @@ class CellsImpl(*_cells_impl_base):
             self.input_keys.add(key)
             if self.system._recalc_dependents:
                 for trg in targets:
-                    trg[OBJ].get_value_from_key(trg[KEY])
+                    if trg[OBJ].interface._is_valid():
+                        trg[OBJ].get_value_from_key(trg[KEY])
+                    # else: it was in an ItemSpace that the assignment
+                    # has just discarded
 
     def _store_value(self, key, value):
 
